@@ -1296,6 +1296,13 @@ pub fn build_ast(tape: &[u16]) -> GrammarSpec {
     let mut s_use = SymUse::plain(Sym::N(1));
     s_use.rep = Some((if c.pick(2) == 0 { RepOp::Plus } else { RepOp::Star }, None));
     rules[0].alts = vec![AltSpec { syms: vec![s_use], meta: Meta::default() }];
+    // two terminals with the same string recogniser (an inline use resolves to one of them; which
+    // one must not depend on anything but the grammar text)
+    let mut terms = terms;
+    if c.pick(4) == 0 {
+        terms.push(TermSpec::str("Colon2", ":"));
+        terms.push(TermSpec::str("ABang", "!"));
+    }
     GrammarSpec { terms, rules, layout: None }
 }
 
